@@ -183,6 +183,10 @@ def ext_items(src, chars=False):
         return tuple(('lit', x) for x in src[1])
     if src[0] == 'lit' and isinstance(src[1], str):
         return tuple(('lit', x) for x in src[1].encode('utf-8'))
+    if src[0] == 'call' and src[1] == 'core::char::methods::<impl char>::encode_utf8' and len(src[2]) == 2:
+        # ch.encode_utf8(&mut scratch): "encodes this character as UTF-8 into the provided byte buffer, and then returns the subslice
+        # of the buffer that contains the encoded character" - the octets String::push(ch) would append
+        return char_octets(src[2][0])
     n = prefix_end(src) if src[0] in ('index', 'field') else None
     if n is not None:
         return (('pre', n),)
